@@ -72,6 +72,19 @@ func removeEmptyDirs(fs afero.Fs, dir, root string) {
 	}
 }
 
+// removeNewDirs undoes the MkdirAll(dir) of a PutObject that then failed: it
+// removes the directories on the way to dir that exist and are empty (a failed
+// MkdirAll may have made only some of them), like removeEmptyDirs never root.
+func removeNewDirs(fs afero.Fs, dir, root string) {
+	root = path.Clean(root)
+	for dir = path.Clean(dir); dir != root && dir != "." && dir != "/"; dir = path.Dir(dir) {
+		if _, err := fs.Stat(filepath.FromSlash(dir)); err == nil {
+			removeEmptyDirs(fs, dir, root)
+			return
+		}
+	}
+}
+
 type readerWithCloser struct {
 	io.Reader
 	closer func() error
